@@ -92,18 +92,23 @@ fn subset_post_v2tail(post: &Post, plan: &Plan, s: &mut Serializer) -> Result<()
     let Some(ps_names) = post.string_data() else {
         return Err(SubsetError::SubsetTableError(Post::TAG));
     };
+    // glyphNameIndex 258 + k denotes the k-th string, whatever the order of the glyphs is
+    let ps_names: Vec<_> = ps_names.iter().collect();
     let glyph_names_iter = glyph_name_indices
         .iter()
         .enumerate()
         .take(max_old_gid + 1)
-        .filter(|x| x.1.get() >= 258)
-        .zip(ps_names.iter());
+        .filter(|x| x.1.get() >= 258);
 
-    for ((old_gid, _), ps_name) in glyph_names_iter {
+    for (old_gid, old_idx) in glyph_names_iter {
         let Some(new_gid) = plan.glyph_map.get(&GlyphId::from(old_gid as u32)) else {
             continue;
         };
-        let ps_name = ps_name.unwrap().as_str();
+        // no (readable) string for this index: the glyph keeps index 0, as for read-fonts' glyph_name()
+        let Some(Ok(ps_name)) = ps_names.get(old_idx.get() as usize - 258) else {
+            continue;
+        };
+        let ps_name = ps_name.as_str();
         let out_idx = idx_start + new_gid.to_u32() as usize * 2;
 
         let name_idx = match standard_glyphs.get(ps_name) {
